@@ -288,6 +288,11 @@ WPATHS = ["a", "a/x", "a/x/q", "b", "b/c", "/a", "a/y", "/", "a@k", ""]
 NEWV = 7777
 
 
+def _handle_view(g):
+    """What the *returned* group handle shows (name, children, attribute names, parent)."""
+    return (g.name, sorted(g.keys()), len(g), sorted(k for k in g.attrs.keys()), g.parent.name)
+
+
 def apply_op(r, op, p, q, is_ih5=True):
     """Run one user operation; returns ("ok", info) or ("exc", class name)."""
     try:
@@ -298,7 +303,7 @@ def apply_op(r, op, p, q, is_ih5=True):
                 return ("exc", "BaseNotAGroup")
         if op == "create_group":
             g = r.create_group(p)
-            return ("ok", g.name)
+            return ("ok", _handle_view(g))
         if op == "setitem":
             r[p] = NEWV
             return ("ok", None)
@@ -315,7 +320,7 @@ def apply_op(r, op, p, q, is_ih5=True):
             del r[p].attrs["k"]
             return ("ok", None)
         if op == "require_group":
-            return ("ok", r.require_group(p).name)
+            return ("ok", _handle_view(r.require_group(p)))
         if op == "require_dataset":
             return ("ok", r.require_dataset(p, shape=(), dtype="i8", data=NEWV).name)
         if op == "set_delvalue":
@@ -438,7 +443,7 @@ def w_check(files, T, op, p, q):
         return ih5_only_ok(op, p, q, T, T2, res, files)
     # 2. same outcome and tree on the single container materialised from the fold (same code, n=1)
     res_s = apply_op(rs, op, p, q)
-    if res[0] != res_s[0]:
+    if res[0] != res_s[0] or (res[0] == "ok" and res != res_s):
         note(("outcome differs from single container", res, res_s))
         return False
     if view(rs) != v:
@@ -446,7 +451,7 @@ def w_check(files, T, op, p, q):
         return False
     # 4. same success/failure and same tree as the plain HDF5 file (C09, driver level)
     res_p = apply_op(plain, op, p, q, is_ih5=False)
-    if (res[0] == "ok") != (res_p[0] == "ok"):
+    if (res[0] == "ok") != (res_p[0] == "ok") or (res[0] == "ok" and res != res_p):
         note(("plain file differs", res, res_p))
         return False
     if res[0] == "ok" and plainview(plain) != v:
